@@ -182,9 +182,22 @@ CHECKS = {
             "Trusts the 40-line predicate written from the property text and typechecking.md. NULL against a range or alternation is left "
             "unjudged (property text and manual differ). Recursive constraints are not exercised.",
             "DESIGN.md section 4 C06"),
+    "C15": ("exploration",
+            "bounded-exhaustive enumeration of documents written by independent Python writers through the real include path, compared "
+            "at the Val level with independent decoders",
+            "~190 value trees (integer/float extremes, 45 format-significant strings as value and as key, nesting, empties, mixed lists) written "
+            "as JSON (compact, indented, ASCII-escaped), YAML (block/flow x plain/single/double quoting) and TOML (inline tables, [sections], "
+            "[[arrays of tables]]); text files for str; every byte string of length <= 4 over {00 41 0A FB FF} and text for b64 and "
+            "b64urlsafe; unknown include types; every truncation and every single-byte substitution by {, \", :, NUL of the 10 (thorough 30) "
+            "longest documents per format, judged by the independent decoder. Each include is one file built by FileBuilder::build; the "
+            "bound Val must equal the typed tree (ints stay ints, other numbers floats), malformed input must fail the build.",
+            "Trusts CPython json/tomllib/base64, PyYAML's parser and the resolver in vf/decoders.py and the writers in checks/c15.py. YAML "
+            "documents with non-string or merge keys, anchors, aliases, tags or several documents are left unjudged (outside the subset the "
+            "property names). Tuple key order is not compared.",
+            "DESIGN.md section 4 C15"),
 }
 
-CLAIMED = ["C01", "C02", "C03", "C04", "C05", "C06", "C07", "C08", "C09", "C10", "C11", "C12", "C13", "C14", "C16", "C18"]
+CLAIMED = ["C01", "C02", "C03", "C04", "C05", "C06", "C07", "C08", "C09", "C10", "C11", "C12", "C13", "C14", "C15", "C16", "C18"]
 
 NOT_YET = "check not built yet in this round; design in DESIGN.md section 4 (bounded-exhaustive enumeration applies)"
 
